@@ -160,12 +160,16 @@ Record pool := {
   p_shards : list (str * shard);
   p_users : list (str * user) }.
 
+(* what tls::load_certs / tls::load_keys answer on a path: Err, Ok(empty) (a readable file
+   without the expected PEM items), Ok(at least one item) *)
+Inductive loaded := LoadErr | LoadEmpty | LoadSome.
+
 Record config := {
   g_auth_query : bool; g_auth_user : bool; g_auth_password : bool;
   g_connect_timeout : Z; g_idle_timeout : Z; g_server_lifetime : Z;
-  (* tls_certificate / tls_private_key: None = not set, Some b = set and tls::load_certs /
-     tls::load_keys on that path answers Ok iff b (file system and rustls_pemfile are environment) *)
-  g_tls_cert : option bool; g_tls_key : option bool;
+  (* tls_certificate / tls_private_key: None = not set, Some v = set and tls::load_certs /
+     tls::load_keys on that path answers v (file system and rustls_pemfile are environment) *)
+  g_tls_cert : option loaded; g_tls_key : option loaded;
   g_plugins : option plug;            (* top-level [plugins] *)
   c_pools : list pool }.
 
@@ -311,16 +315,17 @@ Definition pool_auth_bad (p : pool) : bool :=
   || existsb (fun ku => (negb (p_auth_query p) || negb (p_auth_password p) || negb (p_auth_user p))
                         && negb (u_password (snd ku))) (p_users p).
 
-(* config.rs:1580-1606: only looked at when tls_certificate is set; the certificate must load,
-   then the key must be set and load; on success validation CONTINUES with the pools *)
+(* config.rs:1580-1615: only looked at when tls_certificate is set; the certificate file must
+   load and hold a certificate, then the key must be set, load and hold a private key; on
+   success validation CONTINUES with the pools *)
 Definition tls_ok (c : config) : bool :=
   match g_tls_cert c with
   | None => true
-  | Some false => false
-  | Some true => match g_tls_key c with Some true => true | _ => false end
+  | Some LoadSome => match g_tls_key c with Some LoadSome => true | _ => false end
+  | Some _ => false
   end.
 
-(* config.rs:1516-1613, in order *)
+(* config.rs:1516-1622, in order *)
 Definition config_validate (c : config) : bool :=
   if g_auth_query c && (negb (g_auth_user c) || negb (g_auth_password c)) then false else
   if (g_connect_timeout c =? 0) || (g_idle_timeout c =? 0) || (g_server_lifetime c =? 0) then false else
